@@ -4,6 +4,7 @@
 #include "../core/patchmodel.hpp"
 #include "../core/corpus.hpp"
 #include <cstring>
+#include <cstdlib>
 #include <exception>
 #include <memory>
 #include <new>
@@ -87,6 +88,7 @@ MVal generate(const std::string& profile, uint64_t seed, uint64_t idx) {
     if (has_need(g.needs, "arrayop")) plan.set("op", MVal::str(r.pick(array_ops)));
     if (has_need(g.needs, "objectop")) plan.set("op", MVal::str(r.pick(object_ops)));
     if (has_need(g.needs, "key")) plan.set("key", MVal::str(r.coin() ? "k" : "a new key that is long enough to need the heap"));
+    if (has_need(g.needs, "statefulop")) { static const char* const sops[] = {"copy_same", "copy_other_alloc", "move_other_alloc", "assign", "move_assign", "swap", "assign_self_alloc", "insert_foreign", "insert_move", "emplace", "other"}; plan.set("op", MVal::str(r.pick(sops))); }
     if (has_need(g.needs, "mpop")) plan.set("op", MVal::str(r.chance(1, 4) ? "from_diff" : "apply"));
     if (has_need(g.needs, "ptrop")) {
         plan.set("op", MVal::str(r.pick(ptr_ops)));
@@ -167,6 +169,7 @@ Result execute(MVal& plan, Stats& st) {
     st.inc("plans"); st.inc("plans." + name); st.inc("allocs_total", N); st.maxi("N." + name, N);
     h = fnv1a(ref, h) ^ N;
 
+    if (getenv("ALLOCSIM_COUNT_ONLY")) { res.hash = h; return res; }   // exploration aid (fault-free control only), unset in checks
     uint64_t lo = 1, hi = N;
     if (only) { lo = hi = only; if (only > N) { res.cls = "invalid-plan"; return res; } }
     else if (resume) lo = resume;
